@@ -119,6 +119,61 @@ class BatcherRoles:
                         info = callee_info(g, n.ast)
                         if info['kind'] == 'package' and self.assemble in info.get('scopes', []):
                             self.dispatch = f
+        # helpers extracted from the assembler / the batch task hold the marker constructs now: lift each role to the
+        # outermost method of the class that runs the helper inline (awaits / calls it directly), stopping below the
+        # dispatcher and at a spawn
+        meths_ = [s_ for s_ in u.functions() if s_.enclosing_class() is cls and s_.enclosing_function() is None]
+
+        def direct_callers(f_):
+            out_ = []
+            for g_ in meths_:
+                if g_ is f_:
+                    continue
+                for x in own_nodes(g_.node):
+                    if isinstance(x, ast.Call) and self_attr(x.func) == f_.name:
+                        par_ = parent(x)
+                        inline_ = isinstance(par_, ast.Await) or not f_.is_async
+                        out_.append((g_, inline_))
+            return out_
+
+        def lift(f_, stop_at):
+            seen_ = {f_.qualname}
+            while f_ is not None:
+                cs = direct_callers(f_)
+                if len({g_.qualname for g_, _ in cs}) != 1 or not all(i_ for _, i_ in cs):
+                    return f_
+                g_ = cs[0][0]
+                if g_ is stop_at or g_ is self.call or g_ is self.init or g_.qualname in seen_ or not g_.name.startswith('_') or g_.name.startswith('__'):
+                    return f_
+                seen_.add(g_.qualname)
+                f_ = g_
+            return f_
+        if self.process is not None:
+            self.process = lift(self.process, None)
+        if self.assemble is not None and self.dispatch is not None:
+            lifted = lift(self.assemble, None)
+            if lifted is not self.assemble:
+                # the dispatcher is the method that runs the (lifted) assembler; if lifting reached it, step back
+                chain = [self.assemble]
+                f_ = self.assemble
+                while f_ is not lifted:
+                    f_ = direct_callers(f_)[0][0]
+                    chain.append(f_)
+                # the assembler is the highest method of the chain that returns the batch list (a local born as a list display)
+                def returns_list(f_):
+                    g_ = build(f_, p, inline_methods=True)
+                    for n_ in g_.nodes:
+                        if n_.kind == 'return' and isinstance(n_.ast.value, ast.Name) and not n_.meta.get('inlined'):
+                            if any(isinstance(d.meta.get('value'), ast.List) for d in g_.nodes if d.kind == 'store_name' and d.meta['name'] == n_.ast.value.id):
+                                return True
+                    return False
+                pick = next((f_ for f_ in reversed(chain) if returns_list(f_)), None)
+                if pick is not None and pick is not self.assemble:
+                    self.assemble = pick
+                    self.dispatch = None
+                    for f_ in meths_:
+                        if any(isinstance(x, ast.Call) and self_attr(x.func) == pick.name for x in own_nodes(f_.node)) and f_ is not pick:
+                            self.dispatch = f_
         if self.ret is not None:
             # the retention cache only ever receives futures: a value read from it is not None
             from ..paths import nonnull_expr
@@ -668,8 +723,12 @@ def c10(ctx: Ctx) -> None:
     ctx.rule('C10-R4', 'FIFO: asyncio.Queue, list only appended/extended, order-preserving argument list, a single assembler in a single dispatcher', 4)
     ctx.rule('C10-R5', 'the only bounded wait is wait_for(queue.get(), self.batch_timeout); its TimeoutError ends the batch; the first get is unbounded', 2)
     # list variable: local assigned a one-element list display containing an await of queue.get()
-    births = [n for n in g.nodes if n.kind == 'store_name' and isinstance(n.meta.get('value'), ast.List)]
-    if len(births) != 1 or len(births[0].meta['value'].elts) != 1:
+    births_all = [n for n in g.nodes if n.kind == 'store_name' and isinstance(n.meta.get('value'), ast.List)]
+    births = [n for n in births_all if len(n.meta['value'].elts) == 1]
+    # an empty display under the same name is the closed-loop result (`return []` spelled through the variable); R2 checks
+    # that it is reached through the RuntimeError handler only
+    empty_births = [n for n in births_all if not n.meta['value'].elts]
+    if len(births) != 1 or any(len(n.meta['value'].elts) > 1 for n in births_all) or any(n.meta['name'] != births[0].meta['name'] for n in births_all):
         ctx.undecided('C10-R1', 'batch list birth', f'{FILE}:{r.assemble.lineno}', 'list is not born as a one-element display')
         r.publish(ctx)
         return
@@ -821,9 +880,21 @@ def c10(ctx: Ctx) -> None:
         if n.kind != 'return':
             continue
         v = n.ast.value
+        if n.meta.get('inlined'):
+            continue        # the return of an inlined helper hands its value to the assembler, not to the dispatcher
         if isinstance(v, ast.Name) and v.id == L:
             ctx.check('C10-R2', f'return {L}', g.loc(n), not shrink, 'born with one element, only grows',
                       'items are removed from the batch list', construct=construct_key(r.assemble.qualname, 'list shrinks'))
+            from ..dataflow import rdefs as _rd10
+            for eb in empty_births:
+                if any(d_ is eb for d_ in (_rd10(g).reaching(n, L) or [])):
+                    hs = [x for x in g.nodes if x.kind == 'except' and 'RuntimeError' in x.meta.get('classes', ())]
+                    w = must_pass(g, [g.entry], [eb], hs)
+                    ctx.check('C10-R2', f'return {L} = [] (closed-loop branch)', g.loc(eb), w is None and bool(hs),
+                              'reachable only through the RuntimeError handler of the first get: no task can be spawned on a closed loop, '
+                              'so the batch function is not reached (tabled exception)',
+                              'an empty batch can be handed to the batch function', witness=render(g, w),
+                              construct=construct_key(r.assemble.qualname, 'empty batch'))
         elif isinstance(v, ast.List) and not v.elts:
             hs = [x for x in g.nodes if x.kind == 'except' and 'RuntimeError' in x.meta.get('classes', ())]
             w = must_pass(g, [g.entry], [n], hs)
@@ -838,8 +909,10 @@ def c10(ctx: Ctx) -> None:
         else:
             ctx.undecided('C10-R2', f'return {norm(v) if v is not None else None}', g.loc(n), 'unrecognised batch value')
     gp = r.gproc
-    argdefs = [n for n in gp.nodes if n.kind == 'store_name' and n.meta['name'] == r.args_var]
-    rebinds = [n for n in gp.nodes if n.kind == 'store_name' and n.meta['name'] == r.tasks_param]
+    def _same_name_binding(n_):
+        return bool(n_.meta.get('inlined_param')) and isinstance(n_.meta.get('value'), ast.Name) and n_.meta['value'].id == n_.meta['name']
+    argdefs = [n for n in gp.nodes if n.kind == 'store_name' and n.meta['name'] == r.args_var and not _same_name_binding(n)]
+    rebinds = [n for n in gp.nodes if n.kind == 'store_name' and n.meta['name'] == r.tasks_param and not _same_name_binding(n)]
     for rb_ in rebinds:
         ctx.violation('C10-R2', f'{norm(rb_.meta.get("stmt") or rb_.ast)[:90]}', gp.loc(rb_),
                       'the batch is re-built (filtered) before it is handed to the batch function: it can become empty',
@@ -1137,6 +1210,16 @@ def c11(ctx: Ctx) -> None:
             st = [x for x in g.nodes if x.kind == 'store_name' and x.meta['name'] == keyparam and not x.meta.get('inlined_param')]
             ok = len(st) == 1 and norm(st[0].meta['value']) == 'str(arg)' and find_path(g, [], st, start_edges=te) is not None \
                 and find_path(g, [], st, start_edges=[e for e in g.succ[n.id] if e.label == 'false']) is None
+    if not ok:
+        # the conditional-expression form: key = str(arg) if key is None else key  (either orientation)
+        st = [x for x in g.nodes if x.kind == 'store_name' and x.meta['name'] == keyparam and not x.meta.get('inlined_param')]
+        if len(st) == 1 and isinstance(st[0].meta.get('value'), ast.IfExp):
+            ie = st[0].meta['value']
+            t_ = norm(ie.test)
+            when_none, otherwise = (ie.body, ie.orelse) if t_ == f'{keyparam} is None' else \
+                (ie.orelse, ie.body) if t_ == f'{keyparam} is not None' else (None, None)
+            ok = when_none is not None and norm(when_none) == 'str(arg)' and isinstance(otherwise, ast.Name) and otherwise.id == keyparam \
+                and not st[0].loops
     ctx.check('C11-R5', 'if key is None: key = str(arg)', f'{FILE}:{r.call.lineno}', ok, 'default key only when none given',
               'the key is not str(arg) by default / an explicit key is altered', construct=construct_key(r.call.qualname, 'default key'))
     r.publish(ctx)
@@ -1255,11 +1338,13 @@ def _chains(ctx: Ctx, p) -> None:
         writes = [x for f in u.functions() if f.enclosing_class() is cls for x in own_nodes(f.node)
                   if isinstance(x, (ast.Assign, ast.AugAssign)) and any(self_attr(t) == 'timeout' for t in (x.targets if isinstance(x, ast.Assign) else [x.target]))]
         for f in u.functions():
-            if f.enclosing_class() is cls:
-                for x in own_nodes(f.node):
-                    if isinstance(x, ast.Call) and Resolver(f).path(x.func) == 'asyncio.wait_for' and len(x.args) > 1 \
-                            and self_attr(x.args[1]) == 'timeout':
-                        ok3 = True
+            if f.enclosing_class() is cls and any(isinstance(x, ast.Call) and Resolver(f).path(x.func) == 'asyncio.wait_for' for x in own_nodes(f.node)):
+                gf_ = build(f, p)
+                for n_ in gf_.nodes:
+                    if n_.kind == 'call' and gf_.res.path(n_.ast.func) == 'asyncio.wait_for':
+                        t_ = n_.ast.args[1] if len(n_.ast.args) > 1 else next((k.value for k in n_.ast.keywords if k.arg == 'timeout'), None)
+                        if t_ is not None and self_attr(resolve(gf_, n_, t_)) == 'timeout':
+                            ok3 = True
         ok2 = ok2 and len(writes) == 1
     ctx.check('C15-R2', 'buffer_until_timeout: timeout -> BufferAsyncCalls(timeout=) -> self.timeout -> wait_for(_, self.timeout)',
               f'{FILE}:{but.lineno}', ok1 and ok2 and ok3, 'chain complete',
